@@ -239,7 +239,10 @@ func (server *Server) tlsServe() error {
 
 		tlsConn := tls.Server(conn, server.tlsConfig)
 		if err := tlsConn.Handshake(); err != nil {
-			return err
+			// A failed handshake concerns only this client: keeps accepting.
+			log.Error(err)
+			tlsConn.Close()
+			continue
 		}
 		tlsState := tlsConn.ConnectionState()
 
